@@ -413,10 +413,10 @@ def generic_helpers():
 def subchecks(tier):
     q = tier == "quick"
     return [
-        Sub("curvature3", curv_case(), test_curv, 20 if q else 1200,
+        Sub("curvature3", curv_case(), A.asymptotic(test_curv), 20 if q else 1200,
             generic=generic_curv(), shards=8 if q else 16, max_rounds=2,
             shrink_quick=False, pregenerate=True),
-        Sub("helpers", helper_case(), test_helpers, 20 if q else 1200,
+        Sub("helpers", helper_case(), A.asymptotic(test_helpers), 20 if q else 1200,
             generic=generic_helpers(), shards=8 if q else 16, max_rounds=2,
             shrink_quick=False, pregenerate=True),
     ]
